@@ -85,10 +85,20 @@ func strPtrEq(a, b *string) bool {
 	return *a == *b
 }
 
+// Journal entries and feed trips are matched by (start instant, trip-id suffix), the identity the
+// statement gives; the textual format of TripUID is not assumed.
+func journalKey(t *journal.Trip) string {
+	suffix := ""
+	if len(t.TripID) >= 6 {
+		suffix = t.TripID[6:]
+	}
+	return fmt.Sprintf("%d|%s", t.StartTime.Unix(), suffix)
+}
+
 func journalTrips(j *journal.Journal) map[string]*journal.Trip {
 	m := map[string]*journal.Trip{}
 	for i := range j.Trips {
-		m[j.Trips[i].TripUID] = &j.Trips[i]
+		m[journalKey(&j.Trips[i])] = &j.Trips[i]
 	}
 	return m
 }
@@ -99,7 +109,7 @@ func uidOf(t *gtfs.Trip) string {
 	if len(t.ID.ID) >= 6 {
 		suffix = t.ID.ID[6:]
 	}
-	return fmt.Sprintf("%d%s", start.Unix(), suffix)
+	return fmt.Sprintf("%d|%s", start.Unix(), suffix)
 }
 
 func stopTimesString(l []journal.StopTime) string {
